@@ -15,16 +15,12 @@ variable {α : Type}
 /-- the most recent `min k N` samples, oldest first -/
 def window (N : Nat) (xs : List α) : List α := xs.drop (xs.length - N)
 
-/-- insertion into an ascending list (before the first element that is `≥ x`) -/
-def insertAsc [Median.POrd α] (x : α) : List α → List α
-  | [] => [x]
-  | y :: ys => if Median.POrd.le x y then x :: y :: ys else y :: insertAsc x ys
-
-def sortAsc [Median.POrd α] (l : List α) : List α := l.foldr insertAsc []
+/-- ascending sort by the sample type's `<=` (core `List.mergeSort`, stable) -/
+def sortAsc [Median.POrd α] (l : List α) : List α := l.mergeSort (fun a b => Median.POrd.le a b)
 
 /-- C02/C17: element of rank `⌊(m-1)/2⌋` in ascending order -/
 def lowerMedian [Median.POrd α] (w : List α) : Option α := (sortAsc w)[(w.length - 1) / 2]?
-def minimum [Median.POrd α] (w : List α) : Option α := (sortAsc w).head?
+def minimum [Median.POrd α] (w : List α) : Option α := (sortAsc w)[0]?
 def maximum [Median.POrd α] (w : List α) : Option α := (sortAsc w).getLast?
 
 /-- `n` as a sample: `0 + 1 + … + 1` -/
